@@ -33,11 +33,13 @@ def lseq(v):
     return v if v < 500000 else 1000000 - (M96 - v)
 
 
-def channel_trace(tid, hist, r, curve, aead, mode, mismatch, full):
+def channel_trace(tid, hist, r, curve, aead, mode, mismatch, full, want=None):
     skR = key(curve, "R", r)
     skS = key(curve, "S", r)
     info = rb(r, r.choice([0, 1, 20]))
     psk = (rb(r, r.choice([1, 8])), rb(r, r.choice([32, 33, 64]))) if mode in (1, 3) else None
+    if want == "nonce0" and psk:
+        psk = (b"id", bytes(range(32)))
     auth = mode in (2, 3)
     captured = {}
     orig = HPKE._extract_and_expand
@@ -49,6 +51,19 @@ def channel_trace(tid, hist, r, curve, aead, mode, mismatch, full):
     HPKE._extract_and_expand = spy
     try:
         sender = HPKE.new(receiver_key=skR.public_key(), aead_id=AEADS[aead], sender_key=skS if auth else None, psk=psk, info=info)
+        if want == "nonce0":
+            # a session whose derived base nonce begins with a zero octet (one in 256): set-up is repeated (fresh ephemeral key, other info)
+            # until one comes up - input generation; the key schedule of the session found is recomputed by the specification like any other
+            try:
+                n = 0
+                while sender._base_nonce[0] != 0:
+                    n += 1
+                    if n > 6000:
+                        return None
+                    info = b"session-%d" % n
+                    sender = HPKE.new(receiver_key=skR.public_key(), aead_id=AEADS[aead], sender_key=skS if auth else None, psk=psk, info=info)
+            except AttributeError:
+                return None
     finally:
         HPKE._extract_and_expand = orig
     # receiver, possibly set up differently
@@ -179,9 +194,9 @@ def setup_traces(tid0, r):
         good_enc = HPKE.new(receiver_key=skR.public_key(), aead_id=HPKE.AEAD.AES128_GCM).enc
         for receiver_private in (False, True):
             for enc_kind in ("none", "valid", "short", "long", "empty"):
-                for psk_len, pskid_len in ((0, 0), (32, 4), (31, 4), (32, 0), (0, 4), (64, 1)):
+                for psk_len, pskid_len in ((0, 0), (32, 4), (31, 4), (32, 0), (0, 4), (64, 1), (-1, -1)):       # (-1, -1): the explicit empty pair (b"", b"")
                     for sender in ("none", "priv", "pub", "othercurve"):
-                        if r.random() > 0.35 and not (enc_kind in ("none", "valid") and psk_len in (0, 32) and sender in ("none", "priv", "pub")):
+                        if r.random() > 0.35 and not (enc_kind in ("none", "valid") and psk_len in (0, 32, -1) and sender in ("none", "priv", "pub")):
                             continue
                         enc = {"none": None, "valid": good_enc, "short": good_enc[:-1], "long": good_enc + b"\0", "empty": b""}[enc_kind]
                         if sender == "none":
@@ -192,8 +207,9 @@ def setup_traces(tid0, r):
                             sk = skS.public_key()
                         else:
                             sk = other if receiver_private is False else other.public_key()
-                        psk = None if psk_len == 0 and pskid_len == 0 else (bytes(pskid_len), bytes(range(psk_len)))
-                        desc = dict(receiver_private=receiver_private, enc=enc_kind, psk_len=psk_len, pskid_len=pskid_len,
+                        psk = None if psk_len == 0 and pskid_len == 0 else (bytes(max(pskid_len, 0)), bytes(range(max(psk_len, 0))))
+                        psk_given = psk is not None
+                        desc = dict(receiver_private=receiver_private, enc=enc_kind, psk_len=max(psk_len, 0), pskid_len=max(pskid_len, 0), psk_given=psk_given,
                                     has_sender=sk is not None, sender_private=bool(sk is not None and sk.has_private()),
                                     same_curve=sender != "othercurve", curve_supported=True)
                         tid += 1
@@ -207,7 +223,7 @@ def setup_traces(tid0, r):
     # unsupported curves
     for curve in ("ed25519", "p224"):
         k = ECC.generate(curve=curve, randfunc=lambda n: rb(r, n))
-        desc = dict(receiver_private=False, enc="none", psk_len=0, pskid_len=0, has_sender=False, sender_private=False,
+        desc = dict(receiver_private=False, enc="none", psk_len=0, pskid_len=0, psk_given=False, has_sender=False, sender_private=False,
                     same_curve=True, curve_supported=False)
         tid += 1
         try:
@@ -242,6 +258,16 @@ def main():
             if full:
                 nfull_big[curve] -= 1
         traces.append(channel_trace(tid, h, r, curve, aead, mode, mismatch, full))
+    # sessions whose base nonce begins with a zero octet, fully evaluated (the nonce of every message must still be 12 octets)
+    seals = [h for h in job["hists"] if sum(1 for e in h if e["op"] == "seal") >= 2 and not any(e["op"] == "preset" for e in h)]
+    for j in range(job.get("nonce0", 0)):
+        if not seals:
+            break
+        tid += 1
+        t = channel_trace(tid, seals[j % len(seals)], r, ["curve25519", "p256"][j % 2], [1, 3, 2][j % 3], [0, 1, 2, 3][j % 4], "none", True, want="nonce0")
+        if t is not None:
+            t["cfg"]["nonce0"] = True
+            traces.append(t)
     traces += setup_traces(tid, r)
     json.dump(traces, sys.stdout)
 
